@@ -244,10 +244,8 @@ fn check(ctx: &Ctx, env: &Env, c: &Case) -> Check {
     let out = (|| -> Check {
         match (&result, missing_id) {
             (Ok(()), Some(m)) => Err(Fail::new("C14:unknown-libcnb-id-not-an-error", format!("id {} has no packaged location but packaging succeeded", IDS[m]))),
-            (Err(e), Some(_)) => {
-                ensure!(e.to_string().contains("Missing path for buildpack"), "C14:missing-id-wrong-error", "{e}");
-                Ok(())
-            }
+            // any error will do: "an id without a known location is an error", whatever its wording
+            (Err(_), Some(_)) => Ok(()),
             (Err(e), None) => Err(Fail::new("C14:packaging-failed", format!("{e}; package.toml: {text}"))),
             (Ok(()), None) => {
                 let got_bp = std::fs::read(dest.join("buildpack.toml")).unwrap_or_default();
@@ -270,7 +268,9 @@ fn check(ctx: &Ctx, env: &Env, c: &Case) -> Check {
                         Dep::Rel(r) => ref_normalise(&base, r),
                         Dep::Abs(s) | Dep::Other(s) => s.clone(),
                     };
-                    if got != want {
+                    // a relative path: the directory it denotes, with or without a trailing separator
+                    let same = got == want || (matches!(d, Dep::Rel(_)) && got.trim_end_matches('/') == want.trim_end_matches('/') && !got.trim_end_matches('/').is_empty());
+                    if !same {
                         let sig = match d {
                             Dep::Libcnb(_) => "C14:libcnb-dependency-wrong-location",
                             Dep::Rel(_) => "C14:relative-path-wrong",
